@@ -1,23 +1,30 @@
 #!/bin/bash
-# tools/check_seeds.sh [tier] [ids...]  - applies every kept seed to /repo in turn, runs the check of its
-# property (plus any extra check named in meta.json "also_checks"), expects exit 1, reverts. Writes seeded/RESULTS.txt
+# tools/check_seeds.sh [tier] [ids...]  - applies every kept seed in turn to a scratch clone of /repo's HEAD
+# (outside /repo and /verif, removed at the end), runs the check of its property (plus any extra check named in
+# meta.json "also_checks") against that clone, expects exit 1, reverts.  Writes seeded/RESULTS.txt.
+# Evidence and replays of these runs go to the scratch directory, never to /verif/evidence.
 tier=${1:-quick}; shift
 cd /verif
 ids=${@:-$(ls seeded | grep -E '^C[0-9]+_[0-9]+$')}
 out=seeded/RESULTS.txt; [ $# -eq 0 ] && : > $out
+S=$(mktemp -d /tmp/seedcheck.XXXXXX)
+git clone -q /repo $S/repo || exit 2
+export VERIF_REPO=$S/repo VERIF_OUT=$S/out
+[ $# -eq 0 ] && echo "# repo HEAD $(git -C /repo rev-parse --short HEAD), verif $(git -C /verif rev-parse --short HEAD), tier $tier" >> $out
 for id in $ids; do
   d=/verif/seeded/$id; pid=${id%_*}
-  if [ -n "$(git -C /repo status --porcelain -- pvl)" ]; then echo "/repo not clean"; exit 2; fi
-  if ! (git -C /repo apply --3way $d/patch.diff 2>/dev/null || git -C /repo apply $d/patch.diff 2>/dev/null); then
-    echo "$id $pid PATCH-DOES-NOT-APPLY" | tee -a $out; git -C /repo reset -q --hard HEAD; continue
+  if ! (git -C $S/repo apply --3way $d/patch.diff 2>/dev/null || git -C $S/repo apply $d/patch.diff 2>/dev/null); then
+    echo "$id $pid PATCH-DOES-NOT-APPLY" | tee -a $out; git -C $S/repo reset -q --hard HEAD; continue
   fi
-  git -C /repo reset -q
+  git -C $S/repo reset -q
   checks="$pid $(python3 -c "import json;print(' '.join(json.load(open('$d/meta.json')).get('also_checks',[])))")"
   res=""
   for c in $checks; do
-    ./vcheck $c $tier > /tmp/seedrun.log 2>&1; rc=$?
-    res="$res $c:rc=$rc:$(grep -c '^VIOLATION' /tmp/seedrun.log)v"
+    s=$(date +%s)
+    ./vcheck $c $tier > $S/run.log 2>&1; rc=$?
+    res="$res $c:rc=$rc:$(grep -c '^VIOLATION' $S/run.log)v:$(( $(date +%s) - s ))s"
   done
-  git -C /repo reset -q --hard HEAD
+  git -C $S/repo reset -q --hard HEAD
   echo "$id$res" | tee -a $out
 done
+rm -rf $S
